@@ -111,7 +111,37 @@ func c07R2(c *Ctx) {
 		if kit.IsNilConst(v) {
 			ok = true
 		}
-		c.R.Check(ok, r, "DLQHandlerNode.Nack: returns the latched error", c.Pos(posOf(ret)), "return err / nil", "a return after the latch registration returns something other than the latched variable: that failure would not break the handler", true)
+		if !ok {
+			// `if err != nil { return wrap(err) }`: the return lies behind the
+			// non-nil edge of a test of the latched variable and the variable is
+			// not reassigned in between, so the latch still fires
+			g := kit.NewGates()
+			var edges []kit.Edge
+			for _, u := range kit.CellUses(cell) {
+				if l, isL := u.Instr.(*ssa.UnOp); isL && l.Op == token.MUL && l.Parent() == fn {
+					es := kit.NilEdges(l, false)
+					edges = append(edges, es...)
+					g.AddEdges(es, "latched err != nil")
+				}
+			}
+			if !g.Empty() {
+				if pass, _ := kit.MustPass(ret, g); pass {
+					ok = true
+					for _, u := range kit.CellUses(cell) {
+						st, isSt := u.Instr.(*ssa.Store)
+						if !isSt || st.Parent() != fn {
+							continue
+						}
+						for _, e := range edges {
+							if kit.EdgeReaches(e, st, nil) && kit.Reaches(st, ret, nil) {
+								ok = false
+							}
+						}
+					}
+				}
+			}
+		}
+		c.R.Check(ok, r, "DLQHandlerNode.Nack: returns the latched error", c.Pos(posOf(ret)), "return err / nil / a wrap of err behind err != nil", "a return after the latch registration returns an error while the latched variable may be nil: that failure would not break the handler", true)
 	}
 	// running gate for Ack and Nack
 	watch := c.W.LookupObj(pStream, "nodeStateRunning")
